@@ -494,6 +494,17 @@ fn from_cases(e: &mut Env, rng: &mut Rng, n: u64) {
           cells.push(cdshealpix::nested::hash(d, lon2, lat2));
           txt.push_str(&format!("{},{}\n", lons, lats));
         }
+        // positions on the borders of the coordinate domain and of the base cells: both poles (latitude exactly
+        // +-90), longitude 0 and just below 360, the equator, the latitude where the polar caps begin
+        if rng.chance(1, 2) {
+          let specials = [("0", "90"), ("123.5", "-90"), ("45", "90"), ("315", "-90"), ("0", "0"), ("359.999999", "0"), ("90", "41.810314895778596"), ("180", "-41.810314895778596"), ("270", "89.999999"), ("0", "-89.999999")];
+          for _ in 0..rng.range(1, 3) {
+            let (lons, lats) = *rng.pick(&specials);
+            let (lon2, lat2) = (lons.parse::<f64>().unwrap().to_radians(), lats.parse::<f64>().unwrap().to_radians());
+            cells.push(cdshealpix::nested::hash(d, lon2, lat2));
+            txt.push_str(&format!("{},{}\n", lons, lats));
+          }
+        }
         std::fs::write(&inp, txt).unwrap();
         let args: Vec<String> = vec!["from".into(), "pos".into(), d.to_string(), inp.to_str().unwrap().into(), "-s".into(), ",".into(), "fits".into(), out.to_str().unwrap().into()];
         let line = format!("BCELLS s 64 {} {} {}", d, cells.len(), cells.iter().map(|c| c.to_string()).collect::<Vec<_>>().join(" "));
